@@ -35,6 +35,23 @@ type c12Scenario struct {
 }
 
 func init() {
+	// a schema with when statements: evaluating them reads the target while the edit is under way
+	model.Schemas["c12when"] = `module c12when { namespace "urn:c12w"; prefix w; revision 0;
+  leaf mode { type string; }
+  container w { when "../mode = 'a'"; leaf x { type string; } container d { when "../x = '1'"; leaf y { type string; } } }
+  leaf g { when "mode = 'a'"; type string; }
+  list l { key k; when "v = 'on'"; leaf k { type string; } leaf v { type string; } }
+}`
+	c12Scenarios = append(c12Scenarios,
+		c12Scenario{"when/new-nodes", "c12when", `{"mode":"a"}`, "", "upsert", "from", `{"w":{"x":"1","d":{"y":"2"}},"g":"3"}`},
+		c12Scenario{"when/existing-nodes", "c12when", `{"mode":"a","w":{"x":"1"},"g":"0"}`, "", "upsert", "from", `{"w":{"x":"1","d":{"y":"2"}},"g":"3"}`},
+		c12Scenario{"when/list-entries", "c12when", `{"mode":"a","l":[{"k":"a","v":"on"}]}`, "", "upsert", "from", `{"l":[{"k":"a","v":"on"},{"k":"b","v":"on"}]}`},
+		c12Scenario{"when/insert", "c12when", `{"mode":"a"}`, "", "insert", "from", `{"w":{"x":"1"},"g":"3"}`},
+		c12Scenario{"when/into", "c12when", `{"mode":"a"}`, "", "upsert", "into", `{"mode":"a","w":{"x":"1"},"g":"3"}`},
+	)
+}
+
+func init() {
 	// the library's node combinator that fans edits out to two nodes takes part like any node
 	for _, name := range []string{"new-container", "existing-container", "list-entries", "at-container", "at-entry", "nested-list", "choice-switch-clear-leaf", "choice-switch-delete-container", "delete-container", "delete-entry", "delete-list", "replace-entry"} {
 		sc := c12ScenarioBy(name)
